@@ -28,9 +28,14 @@ ASSUMPTIONS = [
     "centre of mass / momentum are the plain sums over in-box coordinates (what the statement says; a merger across "
     "a periodic boundary conserves that sum although the merged body appears in the middle of the box)",
 ]
-CLASSES = ["mode/direct", "mode/tree", "mode/line", "mode/linetree", "boundary/none", "boundary/open",
-           "boundary/periodic", "boundary/shear", "nt/multi", "nt/ratio10_tree", "nt/image",
-           "merged_pair_collides_again", "three_way"]
+CLASSES = ["detect/mode/direct", "detect/mode/tree", "detect/mode/line", "detect/mode/linetree",
+           "detect/boundary/none", "detect/boundary/open", "detect/boundary/periodic", "detect/boundary/shear",
+           "detect/nt/multi", "detect/nt/ratio10_tree", "detect/nt/image",
+           "remove_fixup/keep_sorted=0", "remove_fixup/keep_sorted=1", "remove_fixup/removed>=2",
+           "remove_fixup/mode/tree", "remove_fixup/mode/direct",
+           "merge_hist/merged_pair_collides_again", "merge_hist/mergers>=2_in_step", "merge_hist/mode/tree",
+           "merge_hist/mode/linetree", "merge_hist/nt/image", "bounce/isolated_pair", "bounce/nt/image",
+           "bounce/restitution=0.5"]
 
 MODES = ["direct", "tree", "line", "linetree"]
 KEY_LINETREE = "linetree-pruning"       # linetree search prunes without the partner's radius and with signed dt
